@@ -1,230 +1,4 @@
-/- Driver for C05 / C10 / C13(signing): tss signing + bandtss fees; full-state comparison and monitors. -/
-import BandVerif.Common.Driver
-import BandVerif.Model.Signing
-import BandVerif.Generated.Errors
-
-open Lean BandVerif BandVerif.Signing
-
-structure St where
-  s : State
-  nreq : Nat
-
-def errCode : Err → String
-  | .ok => ""
-  | .deLimit => Generated.Err.tss_ErrDELimitExceeded
-  | .noSigners => Generated.Err.tss_ErrInsufficientSigners
-  | .maxAttempt => Generated.Err.tss_ErrMaxSigningAttemptExceeded
-  | .feeExceedsLimit => Generated.Err.bandtss_ErrFeeExceedsLimit
-  | .insufficientFunds => "sdk/5"
-  | .signingNotFound => Generated.Err.tss_ErrSigningNotFound
-  | .notWaiting => Generated.Err.tss_ErrSigningAlreadySuccess
-  | .notAssigned => Generated.Err.tss_ErrMemberNotAssigned
-  | .alreadySigned => Generated.Err.tss_ErrAlreadySigned
-  | .badSignature => Generated.Err.tss_ErrSubmitSigningSignatureFailed
-  | .alreadyActive => Generated.Err.bandtss_ErrMemberAlreadyActive
-  | .penaltyNotElapsed => Generated.Err.bandtss_ErrPenaltyDurationNotElapsed
-  | .memberNotFound => Generated.Err.bandtss_ErrMemberNotFound
-  | .invalidCoins => "sdk/10"
-
-def coinsJson (s : State) (c : Coins) : Json := jl (s.denoms.map fun d => jn (c d))
-def sortNat (l : List Nat) : List Nat := l.mergeSort (fun a b => decide (a ≤ b))
-
-def dump (st : St) : Json :=
-  let s := st.s
-  mkObj [
-    ("members", jl (s.members.map fun m => mkObj [("q", jl ((s.queues m).map jn)), ("tssActive", jb (s.tssActive m)),
-        ("bActive", jb (s.bActive m)), ("bal", coinsJson s (s.bal m))])),
-    ("signings", jl ((List.range s.count).map fun i =>
-      let sid := i + 1
-      match s.signings sid with
-      | none => Json.null
-      | some sg => mkObj [("status", jn sg.status), ("attempt", jn sg.attempt), ("mapping", jn (s.mapping sid)),
-          ("attempts", jl ((List.range sg.attempt).map fun a =>
-            match s.attempts sid (a + 1) with
-            | none => Json.null
-            | some atm => mkObj [("exp", ji atm.expiredHeight), ("assigned", jl (atm.assigned.map fun (m, t) => jl [jn m, jn t])),
-                ("partials", jl ((sortNat (s.partials sid (a + 1))).map jn))]))])),
-    ("expirations", jl (s.expirations.map fun (a, b) => jl [jn a, jn b])),
-    ("pending", jl (s.pending.map jn)),
-    ("escrow", coinsJson s s.escrow),
-    ("req", jl ((List.range st.nreq).map fun i => coinsJson s (s.bal (100 + i))))]
-
-def parseCoins (s : State) (j : Json) (k : String) : Except String Coins := do
-  let l ← jnatList j k
-  pure fun d => l.getD (s.denoms.idxOf d) 0
-
-/-- assigned member ids of attempt `att` of signing `sid` in the implementation's dump -/
-def implAssigned (out : Json) (sid att : Nat) : List (Nat × Nat) :=
-  match (do
-    let sg ← (← jarr out "signings")[sid - 1]?.elim (.error "x") pure
-    let a ← (← jarr sg "attempts")[att - 1]?.elim (.error "x") pure
-    (← jarr a "assigned").mapM fun e => match e with
-      | .arr #[m, t] => do pure ((← asNat m), (← asNat t))
-      | _ => .error "x" : Except String (List (Nat × Nat))) with
-  | .ok l => l
-  | .error _ => []
-
-def implSigning (out : Json) (sid : Nat) : Option (Nat × Nat) :=
-  match (do
-    let sg ← (← jarr out "signings")[sid - 1]?.elim (.error "x") pure
-    pure ((← jnat sg "status"), (← jnat sg "attempt")) : Except String (Nat × Nat)) with
-  | .ok x => some x
-  | .error _ => none
-
-def step (st : St) (j : Json) : Except String (St × Json × List Fired) := do
-  let op ← jstr j "op"
-  let out := (j.getObjVal? "out").toOption.getD Json.null
-  let s := st.s
-  let mut fired : List Fired := []
-  let (s', e) ← match op with
-    | "submitDE" => do pure (enqueue s (← jnat j "member") (← jnat j "k"))
-    | "resetDE" => do pure (resetDE s (← jnat j "member"), Err.ok)
-    | "request" => do
-      let committee := (implAssigned out (s.count + 1) 1).map (·.1)
-      pure (request s (100 + (← jnat j "sender")) (← jbool j "authority") (← parseCoins s j "feeLimit") committee (← jint j "height"))
-    | "submit" => do pure (submit s (← jnat j "sid") (← jnat j "member") (← jbool j "signerOk") (← jbool j "valid"))
-    | "endBlock" => do
-      let committee : Nat → List Nat := fun sid =>
-        match s.signings sid with
-        | some sg => (implAssigned out sid (sg.attempt + 1)).map (·.1)
-        | none => []
-      pure (endBlock s committee (← jint j "height") (← jint j "now"), Err.ok)
-    | "activate" => do pure (activate s (← jnat j "member") (← jint j "now"))
-    | "setParams" => do
-      pure ({ s with signingPeriod := ← jnat j "signingPeriod", maxAttempt := ← jnat j "maxAttempt", maxDE := ← jnat j "maxDE",
-                     feePerSigner := ← parseCoins s j "feePerSigner" }, Err.ok)
-    | _ => throw s!"unknown op {op}"
-  let st' := { st with s := s' }
-  -- ===== monitors on the implementation's dump =====
-  let ierr := (jstr out "err").toOption.getD ""
-  -- C05: no DE token in two persisted attempts, and an assigned token is in no queue
-  let isigs := (jarr out "signings").toOption.getD []
-  let mut allAssigned : List Nat := []
-  for sg in isigs do
-    for a in (jarr sg "attempts").toOption.getD [] do
-      for e in (jarr a "assigned").toOption.getD [] do
-        match e with
-        | .arr #[_, t] => allAssigned := allAssigned ++ [(asNat t).toOption.getD 0]
-        | _ => pure ()
-  -- tokens assigned in attempts already deleted are remembered by the model's log
-  let histTokens := s'.assignedLog.map (·.2.2.2)
-  let implNew := allAssigned.filter (fun t => !histTokens.contains t)
-  if !implNew.isEmpty && ierr == "" then
-    fired := fired ++ [{ name := "de_assigned_outside_model_history", detail := jl (implNew.map jn) }]
-  if allAssigned.eraseDups.length ≠ allAssigned.length then
-    fired := fired ++ [{ name := "de_assigned_twice", detail := jl (allAssigned.map jn) }]
-  let imembers := (jarr out "members").toOption.getD []
-  let mut queued : List Nat := []
-  for m in imembers do
-    queued := queued ++ (jnatList m "q").toOption.getD []
-  let histAll := (s.assignedLog.map (·.2.2.2)) ++ allAssigned
-  if queued.any (histAll.contains ·) then
-    fired := fired ++ [{ name := "assigned_de_still_queued", detail := jl (queued.map jn) }]
-  if op == "submitDE" && ierr == "" then
-    let m := (jnat j "member").toOption.getD 0
-    let q := (jnatList (imembers.getD (m - 1) Json.null) "q").toOption.getD []
-    if q.length > s.maxDE then
-      fired := fired ++ [{ name := "de_queue_above_max", detail := mkObj [("member", jn m), ("len", jn q.length), ("max", jn s.maxDE)] }]
-  -- C10: status never leaves SUCCESS/FALLEN, attempt only grows, never above the maximum
-  for i in List.range s.count do
-    let sid := i + 1
-    match s.signings sid, implSigning out sid with
-    | some old, some (st2, att2) =>
-      if (old.status = stSuccess ∨ old.status = stFallen) ∧ st2 ≠ old.status then
-        fired := fired ++ [{ name := "final_status_changed", detail := mkObj [("sid", jn sid), ("from", jn old.status), ("to", jn st2)] }]
-      if att2 < old.attempt then
-        fired := fired ++ [{ name := "attempt_decreased", detail := mkObj [("sid", jn sid)] }]
-      if att2 > s'.maxAttempt ∧ att2 > old.attempt then
-        fired := fired ++ [{ name := "attempt_above_max", detail := mkObj [("sid", jn sid), ("attempt", jn att2)] }]
-      if op == "endBlock" then
-        let height := (jint j "height").toOption.getD 0
-        -- an attempt is never timed out before its period passed
-        if att2 > old.attempt ∨ (st2 = stFallen ∧ old.status = stWaiting) then
-          match s.attempts sid old.attempt with
-          | some atm =>
-            if atm.expiredHeight > height ∧ !(s.pending.contains sid) then
-              fired := fired ++ [{ name := "attempt_timed_out_early", detail := mkObj [("sid", jn sid), ("exp", ji atm.expiredHeight), ("height", ji height)] }]
-          | none => pure ()
-        -- SUCCESS only for signings whose current attempt has all partial signatures
-        if st2 = stSuccess ∧ old.status = stWaiting then
-          let full := match s.attempts sid old.attempt with
-            | some atm => (s.partials sid old.attempt).length == atm.assigned.length
-            | none => false
-          if !full then
-            fired := fired ++ [{ name := "success_without_all_partials", detail := mkObj [("sid", jn sid)] }]
-    | _, _ => pure ()
-  if op == "endBlock" then
-    -- exactly the idle assigned members of a timed-out attempt are penalised
-    for (m, im) in s.members.zip imembers do
-      let wasActive := s.bActive m
-      let nowActive := (jbool im "bActive").toOption.getD wasActive
-      if wasActive && !nowActive then
-        let height := (jint j "height").toOption.getD 0
-        let genuine := (List.range s.count).any fun i =>
-          let sid := i + 1
-          match s.signings sid with
-          | some sg => match s.attempts sid sg.attempt with
-            | some atm => sg.status == stWaiting && decide (atm.expiredHeight ≤ height) && atm.assigned.any (·.1 == m) &&
-                         !(s.partials sid sg.attempt).contains m
-            | none => false
-          | none => false
-        if !genuine then
-          fired := fired ++ [{ name := "member_penalised_without_idle_timeout", detail := mkObj [("member", jn m)] }]
-      if !wasActive && nowActive then
-        fired := fired ++ [{ name := "member_activated_by_endblock", detail := mkObj [("member", jn m)] }]
-    -- C13: escrow pays exactly fee_per_signer to each assigned member of completed current-group signings
-    let iescrow := (jnatList out "escrow").toOption.getD []
-    let mescrow := s'.denoms.map fun d => s'.escrow d
-    if iescrow != mescrow then
-      fired := fired ++ [{ name := "escrow_payout_mismatch", detail := mkObj [("impl", jl (iescrow.map jn)), ("model", jl (mescrow.map jn))] }]
-  if op == "request" && ierr == "" then
-    -- C13: exact cost within the limit, escrowed
-    let sender := 100 + (jnat j "sender").toOption.getD 0
-    let auth := (jbool j "authority").toOption.getD false
-    let limit ← parseCoins s j "feeLimit"
-    let cost : Coins := if auth then fun _ => 0 else mulC s.feePerSigner s.threshold
-    let ireq := (jarr out "req").toOption.getD []
-    let after := match ireq[sender - 100]? with
-      | some (.arr xs) => xs.toList.map fun x => (asNat x).toOption.getD 0
-      | _ => []
-    if after != s.denoms.map (fun d => s.bal sender d - cost d) || !(geAll s limit cost) then
-      fired := fired ++ [{ name := "signing_fee_not_exact_or_above_limit", detail := mkObj [("after", jl (after.map jn))] }]
-    -- C05: nobody without a queued DE / inactive on the committee
-    let committee := (implAssigned out (s.count + 1) 1)
-    if committee.any (fun (m, t) => !(s.tssActive m) || (s.queues m).head? != some t) || committee.length ≠ s.threshold then
-      fired := fired ++ [{ name := "committee_member_ineligible_or_de_not_fifo", detail := jl (committee.map fun (m, t) => jl [jn m, jn t]) }]
-  if op == "request" && ierr != "" then
-    -- a rejected request moves no coins
-    let iescrow := (jnatList out "escrow").toOption.getD []
-    if iescrow != s.denoms.map (fun d => s.escrow d) then
-      fired := fired ++ [{ name := "rejected_request_moved_coins", detail := Json.null }]
-  pure (st', (dump st').setObjVal! "err" (js (errCode e)), fired)
-
-def initSt (j : Json) : St :=
-  let denoms := (jstrList j "denoms").toOption.getD ["uband"]
-  let n := (jnat j "n").toOption.getD 3
-  let nreq := (jnat j "nreq").toOption.getD 2
-  let coins (k : String) : Coins := fun d => ((jnatList j k).toOption.getD []).getD (denoms.idxOf d) 0
-  let reqBal : List (List Nat) := match jarr j "reqBal" with
-    | .ok l => l.map fun r => match r with
-      | .arr xs => xs.toList.map fun x => (asNat x).toOption.getD 0
-      | _ => []
-    | _ => []
-  let memBal : List (List Nat) := match jarr j "memBal" with
-    | .ok l => l.map fun r => match r with
-      | .arr xs => xs.toList.map fun x => (asNat x).toOption.getD 0
-      | _ => []
-    | _ => []
-  { nreq := nreq,
-    s := { members := (List.range n).map (· + 1), threshold := (jnat j "threshold").toOption.getD 2,
-           queues := fun _ => [], nextToken := 0, tssActive := fun _ => true, signings := fun _ => none, attempts := fun _ _ => none,
-           partials := fun _ _ => [], expirations := [], pending := [], count := 0,
-           signingPeriod := (jnat j "signingPeriod").toOption.getD 1, maxAttempt := (jnat j "maxAttempt").toOption.getD 1,
-           maxDE := (jnat j "maxDE").toOption.getD 5,
-           bActive := fun _ => true, bSince := fun _ => (jint j "since").toOption.getD 0, penalty := (jint j "penalty").toOption.getD 0,
-           mapping := fun _ => 0, bsigs := fun _ => none, bcount := 0, feePerSigner := coins "feePerSigner",
-           escrow := coins "escrow", bal := fun a d => if a ≥ 100 then (reqBal.getD (a - 100) []).getD (denoms.idxOf d) 0
-                                                     else (memBal.getD (a - 1) []).getD (denoms.idxOf d) 0,
-           denoms := denoms, assignedLog := [], penalised := [], completedLog := [], failedLog := [] } }
-
-def main : IO UInt32 := runDriver { init := initSt, step := step }
+/- Driver for C05 / C10: tss signing + bandtss (logic in Drivers/TssLib.lean). -/
+import Drivers.TssLib
+open BandVerif
+def main : IO UInt32 := runDriver { init := TssLib.initSt, step := TssLib.step }
